@@ -9,8 +9,10 @@ import (
 	"os"
 	"path/filepath"
 	"strconv"
+	"strings"
 	"time"
 
+	"github.com/sylabs/sif/v2/pkg/sif"
 	"verifharness/internal/h"
 )
 
@@ -152,6 +154,7 @@ func runHist(seed uint64, n, shards int, out, tmp, backend string, p h.GenParams
 		default:
 			pp.Backend = backend
 		}
+		pp.Scenario = i
 		c := h.GenHistory(r, i+1, pp)
 		notes, err := h.RunCase(&c, tmp)
 		if err != nil {
@@ -449,6 +452,7 @@ func runLockstep(seed uint64, n, shards int, out, tmp string, p h.GenParams) sum
 			pp := p
 			pp.Backend = be
 			pp.NoDefaultTime = true // the two runs must not depend on the wall clock
+			pp.Scenario = i
 			c := h.GenHistory(h.NewRng(seedi), 2*i+k+1, pp)
 			if _, err := h.RunCase(&c, tmp); err != nil {
 				fmt.Fprintln(os.Stderr, "harness error:", err)
@@ -530,6 +534,7 @@ func runDeterm(seed uint64, n, shards int, out, tmp string, p h.GenParams) summa
 			for k, be := range []string{"buf", "file"} {
 				pp := p
 				pp.Backend = be
+				pp.Scenario = i
 				c := h.GenHistory(h.NewRng(sd), 4*i+2*pass+k+1, pp)
 				if _, err := h.RunCase(&c, tmp); err != nil {
 					fmt.Fprintln(os.Stderr, "harness error:", err)
@@ -696,6 +701,57 @@ func runCrash(seed uint64, n, shards int, out, tmp string, thorough bool, p h.Ge
 				}
 			}
 			pre = stp.Obs.Store
+		}
+	}
+	// crafted pre-states the random histories rarely reach: compaction that has to extend the
+	// file (the last surviving object is empty and aligned beyond the written bytes), deletion of
+	// the last object, of every object, of a zero-sized object
+	for v := 0; v < 6; v++ {
+		r := root.Fork()
+		var b sif.Buffer
+		mk := func(content string, opts ...sif.DescriptorInputOpt) sif.DescriptorInput {
+			di, err := sif.NewDescriptorInput(sif.DataGeneric, strings.NewReader(content), opts...)
+			if err != nil {
+				panic(err)
+			}
+			return di
+		}
+		dis := []sif.DescriptorInput{mk("first object"), mk(string(h.GenContent(r, 30+r.Intn(200))), sif.OptObjectAlignment(8))}
+		switch v % 3 {
+		case 0:
+			dis = append(dis, mk("", sif.OptObjectAlignment(4096)))
+		case 1:
+			dis = append(dis, mk("", sif.OptObjectAlignment(512)), mk("", sif.OptObjectAlignment(4096)))
+		case 2:
+			dis = append(dis, mk("tail"))
+		}
+		if _, err := sif.CreateContainer(&b, sif.OptCreateDeterministic(), sif.OptCreateWithDescriptorCapacity(6),
+			sif.OptCreateWithDescriptors(dis...), sif.OptCreateWithCloseOnUnload(false)); err != nil {
+			panic(err)
+		}
+		pre := append([]byte(nil), b.Bytes()...)
+		for _, target := range []uint32{1, 2} {
+			for _, zero := range []bool{false, true} {
+				id++
+				op := h.Op{Kind: h.OpDelete, ByID: true, Sel: h.Selector{Kind: h.SID, N: int64(target)}, Zero: zero, ZeroSet: true,
+					Compact: true, CompactSet: true, T: h.TOpt{Kind: h.TDeterministic}}
+				calls, res, fs := h.OracleCrash(id, pre, op, thorough, &st)
+				s.Oracle = append(s.Oracle, fs...)
+				s.OracleRuns["crash-pairs"]++
+				s.OracleRuns["crafted-compactions"]++
+				if calls != nil {
+					mc := h.Case{ID: id, Backend: "buf", LoadBytes: pre, Steps: []h.Step{{Op: op, Trace: calls}}}
+					if _, err := h.RunCase(&mc, tmp); err != nil {
+						fmt.Fprintln(os.Stderr, "harness error:", err)
+						os.Exit(3)
+					}
+					if len(mc.Steps) == 1 && mc.Steps[0].Obs.Res != res {
+						s.Oracle = append(s.Oracle, h.Finding{Property: "C09", Case: id, What: "result differs between recorded and plain run: " + res + " / " + mc.Steps[0].Obs.Res})
+					}
+					tally(&s, &mc, distinct)
+					cases = append(cases, mc)
+				}
+			}
 		}
 	}
 	s.Extra["crash_points_between_calls"] = st.Boundaries
